@@ -158,6 +158,9 @@ pub struct ChildOf {
     pub under: ChildReg,
     /// an `Addr` of the child is also handed to the harness (granted to client 0)
     pub outside: bool,
+    /// the same child is registered a second time under this type
+    #[serde(default)]
+    pub also_under: Option<ChildReg>,
 }
 
 #[derive(Clone, Copy, Debug, PartialEq, Eq, Hash, Serialize, Deserialize)]
@@ -208,6 +211,9 @@ pub struct Behavior {
     /// `started` of incarnation n (0-based, counted per actor) fails
     pub start_fail: Option<(u32, FailHow)>,
     pub stop_panic: bool,
+    /// what the handlers of stream items, topic messages, child broadcasts and unit messages do
+    #[serde(default)]
+    pub aux_work: Vec<Step>,
 }
 
 #[derive(Clone, Debug, PartialEq, Eq, Hash, Serialize, Deserialize)]
